@@ -286,6 +286,7 @@ func FindCase(prop, tier string, idx int64) *Case {
 	d.Generate(tier, func(c *Case) bool {
 		i++
 		if i == idx {
+			c.Payload()
 			cp := *c
 			found = &cp
 			return false
